@@ -311,10 +311,10 @@ theorem HSpec.pushPaths {B : Int} (w : V) : ∀ (ps : List JV), HSpec B (fun _ =
     exact HSpec.bind (HSpec.pathsPush _) (fun _ _ => ih)
 
 theorem HSpec.objectLoop {B : Int} (x : ExtRec) : ∀ (n : Nat) (m : List (Bytes × JV)),
-    HSpec B (fun _ => True) (objectLoop x n m) := by
+    HSpec B (fun r => ∀ er, r = .error er → eclean B er = true) (objectLoop x n m) := by
   intro n
   induction n with
-  | zero => intro m; unfold VM.objectLoop; exact HSpec.pure trivial
+  | zero => intro m; unfold VM.objectLoop; exact HSpec.pure (fun er h => by cases h)
   | succ n ih =>
     intro m
     unfold VM.objectLoop
@@ -322,7 +322,7 @@ theorem HSpec.objectLoop {B : Int} (x : ExtRec) : ∀ (n : Nat) (m : List (Bytes
     refine HSpec.bind HSpec.pop (fun k _ => ?_)
     split
     · exact HSpec.bind (HSpec.asJV _) (fun j _ => ih _)
-    · exact HSpec.pure trivial
+    · exact HSpec.pure (fun er h => by cases h; rfl)
 
 theorem HSpec.popArgs {B : Int} : ∀ (n : Nat), HSpec B (fun _ => True) (popArgs n) := by
   intro n
